@@ -11,21 +11,12 @@
 package main
 
 import (
-	"bytes"
-	"context"
 	"fmt"
-	"net/url"
 	"os"
-	"os/exec"
 	"path/filepath"
 	"sort"
 	"strconv"
 	"strings"
-	"sync"
-	"time"
-
-	"github.com/go-git/go-git/v6/plumbing/transport"
-	"github.com/go-git/go-git/v6/plumbing/transport/ssh"
 
 	"verif/internal/vf"
 )
@@ -281,551 +272,4 @@ func newWorker(c *vf.Ctx, stubDir string, i int) *worker {
 	c.Must(os.WriteFile(filepath.Join(w.home, "homefile"), []byte("h"), 0o644), "sentinel")
 	w.sentry = digestDir(w.cwd, w.home)
 	return w
-}
-
-type invocation struct{ Argv []string }
-
-func parseOut(b []byte) ([]invocation, error) {
-	var inv []invocation
-	for len(b) > 0 {
-		i := bytes.IndexByte(b, 0)
-		if i < 0 {
-			return nil, fmt.Errorf("truncated count")
-		}
-		n, err := strconv.Atoi(string(b[:i]))
-		if err != nil {
-			return nil, err
-		}
-		b = b[i+1:]
-		var a []string
-		for k := 0; k < n+1; k++ {
-			j := bytes.IndexByte(b, 0)
-			if j < 0 {
-				return nil, fmt.Errorf("truncated arg")
-			}
-			a = append(a, string(b[:j]))
-			b = b[j+1:]
-		}
-		inv = append(inv, invocation{a})
-	}
-	return inv, nil
-}
-
-type shellResult struct {
-	Inv      []invocation
-	Code     int
-	Stdout   string
-	Stderr   string
-	Changed  bool
-	TimedOut bool
-	RunErr   string
-}
-
-func (w *worker) runShell(sp shellSpec, cmdline string) shellResult {
-	os.Remove(w.out)
-	ctx, cancel := context.WithTimeout(context.Background(), 60*time.Second)
-	defer cancel()
-	argv := append(append([]string{}, sp.Argv[1:]...), "-c", cmdline)
-	cmd := exec.CommandContext(ctx, sp.Argv[0], argv...)
-	cmd.Dir = w.cwd
-	cmd.Env = append([]string{
-		"PATH=" + w.stubDir, "HOME=" + w.home, stubEnv + "=" + w.out,
-		"a=EXPANDED_a", "b=EXPANDED_b", "x=EXPANDED_x", "GIT_EXEC_PATH=" + w.stubDir,
-	}, sp.Env...)
-	var so, se bytes.Buffer
-	cmd.Stdout, cmd.Stderr = &so, &se
-	err := cmd.Run()
-	r := shellResult{Stdout: so.String(), Stderr: se.String()}
-	if ctx.Err() != nil {
-		r.TimedOut = true
-		return r
-	}
-	if err != nil {
-		if ee, ok := err.(*exec.ExitError); ok {
-			r.Code = ee.ExitCode()
-		} else {
-			r.Code = -1
-			r.RunErr = err.Error()
-		}
-	}
-	b, _ := os.ReadFile(w.out)
-	inv, perr := parseOut(b)
-	if perr != nil {
-		r.RunErr = "stub output unparsable: " + perr.Error()
-	}
-	r.Inv = inv
-	if digestDir(w.cwd, w.home) != w.sentry {
-		r.Changed = true
-	}
-	return r
-}
-
-func (w *worker) restore(c *vf.Ctx) {
-	// rebuild the sentinel area after a case that modified it
-	os.RemoveAll(w.cwd)
-	os.RemoveAll(w.home)
-	nw := newWorker(c, w.stubDir, 0)
-	*w = *nw
-}
-
-func eqWords(a, b []string) bool {
-	if len(a) != len(b) {
-		return false
-	}
-	for i := range a {
-		if a[i] != b[i] {
-			return false
-		}
-	}
-	return true
-}
-
-// judge returns "" if the shell evaluated the command line to exactly one stub invocation with the right argv.
-func judge(sp shellSpec, t tcase, r shellResult) (clause, what string) {
-	want := append([]string{t.Service}, t.words()...)
-	switch {
-	case r.RunErr != "":
-		return "", "" // handled by caller as machinery trouble
-	case len(r.Inv) == 0:
-		return "not-executed", fmt.Sprintf("%s: service stub was not run (exit=%d stderr=%q)", sp.Name, r.Code, trunc(r.Stderr))
-	case len(r.Inv) > 1:
-		return "executed-more-than-once", fmt.Sprintf("%s: %d invocations", sp.Name, len(r.Inv))
-	}
-	got := r.Inv[0].Argv
-	if len(got) == 0 || filepath.Base(got[0]) != t.Service {
-		return "wrong-command", fmt.Sprintf("%s: argv[0]=%q", sp.Name, got)
-	}
-	if !eqWords(got[1:], want[1:]) {
-		if len(got) != len(want) {
-			return "word-count", fmt.Sprintf("%s: got %d words %s, want %d", sp.Name, len(got)-1, quoteAll(got[1:]), len(want)-1)
-		}
-		return "word-content", fmt.Sprintf("%s: got words %s, want %s", sp.Name, quoteAll(got[1:]), quoteAll(want[1:]))
-	}
-	if r.Changed {
-		return "side-effect", fmt.Sprintf("%s: sentinel cwd/HOME changed while evaluating the command line", sp.Name)
-	}
-	if r.Code != stubExit {
-		return "other-command-after", fmt.Sprintf("%s: shell exit status %d != stub's %d (something else ran last) stderr=%q", sp.Name, r.Code, stubExit, trunc(r.Stderr))
-	}
-	if r.Stdout != "" || r.Stderr != "" {
-		return "shell-output", fmt.Sprintf("%s: shell printed stdout=%q stderr=%q", sp.Name, trunc(r.Stdout), trunc(r.Stderr))
-	}
-	return "", ""
-}
-
-func trunc(s string) string {
-	if len(s) > 200 {
-		return s[:200] + "..."
-	}
-	return s
-}
-
-func quoteAll(w []string) string {
-	q := make([]string, len(w))
-	for i := range w {
-		q[i] = strconv.Quote(w[i])
-		if len(q[i]) > 120 {
-			q[i] = q[i][:120] + "..."
-		}
-	}
-	return "[" + strings.Join(q, ", ") + "]"
-}
-
-func buildCmd(t tcase) (string, any) {
-	var s string
-	p, _ := vf.Catch(func() {
-		s = ssh.BuildCommandForVerif(&transport.Request{URL: &url.URL{Scheme: "ssh", Host: "example.com", Path: t.Path}, Command: t.Service, Args: t.Args})
-	})
-	return s, p
-}
-
-// feature names the smallest input feature that still fails the same way: used for the finding key.
-func feature(t tcase, fails func(tcase) bool) string {
-	cands := []struct {
-		name string
-		tc   tcase
-	}{{"empty-path", tcase{Service: t.Service, Path: ""}}}
-	seen := map[byte]bool{}
-	var bs []int
-	for _, w := range t.words() {
-		for i := 0; i < len(w); i++ {
-			if !seen[w[i]] {
-				seen[w[i]] = true
-				bs = append(bs, int(w[i]))
-			}
-		}
-	}
-	sort.Ints(bs)
-	for _, b := range bs {
-		cl := symClass(byte(b))
-		if cl == "" {
-			cl = "plain"
-		}
-		cands = append(cands, struct {
-			name string
-			tc   tcase
-		}{"single-" + cl, tcase{Service: t.Service, Path: "x" + string([]byte{byte(b)}) + "y"}})
-	}
-	if len(t.Args) > 0 {
-		cands = append(cands, struct {
-			name string
-			tc   tcase
-		}{"plain-arg", tcase{Service: t.Service, Path: "/p", Args: []string{"arg"}}})
-		cands = append(cands, struct {
-			name string
-			tc   tcase
-		}{"empty-arg", tcase{Service: t.Service, Path: "/p", Args: []string{""}}})
-	}
-	for _, cd := range cands {
-		if fails(cd.tc) {
-			return cd.name
-		}
-	}
-	s, _ := caseShape(t)
-	return "combo:" + s
-}
-
-func genCases(c *vf.Ctx) []tcase {
-	var cases []tcase
-	add := func(origin, path string, args ...string) {
-		for _, w := range append([]string{path}, args...) {
-			if strings.IndexByte(w, 0) >= 0 {
-				return
-			}
-		}
-		cases = append(cases, tcase{Service: services[len(cases)%len(services)], Path: path, Args: args, Origin: origin})
-	}
-	// fixed boundary cases
-	add("fixed", "")
-	add("fixed", "", "")
-	add("fixed", "", "", "")
-	add("fixed", "/srv/git/repo.git")
-	add("fixed", "-")
-	add("fixed", "--upload-pack=touch pwned")
-	add("fixed", "-oProxyCommand=touch pwned", "--", "-x")
-	add("fixed", "'")
-	add("fixed", "''")
-	add("fixed", "!")
-	add("fixed", "\\")
-	add("fixed", "\\'")
-	add("fixed", "\n")
-	add("fixed", "a\nb", "c\nd")
-	add("fixed", "'; touch pwned; echo '")
-	add("fixed", "$(touch pwned)", "`touch pwned`")
-	add("fixed", "~", "~/x", "*")
-	add("fixed", "repo' 'extra")
-	add("fixed", "repo\\", "x")
-	// exhaustive short words over the core alphabet
-	L := c.N(3, 4)
-	var rec func(cur string, d int)
-	nEx := 0
-	rec = func(cur string, d int) {
-		if cur != "" {
-			nEx++
-			add("exhaustive", cur)
-		}
-		if d == L {
-			return
-		}
-		for _, s := range core {
-			rec(cur+s, d+1)
-		}
-	}
-	rec("", 0)
-	// exhaustive pairs (path, arg) over the core alphabet, length 1 each
-	for _, a := range core {
-		for _, b := range core {
-			add("exhaustive-pair", a, b)
-			add("exhaustive-pair", "p"+a, b+"q", a+b)
-		}
-	}
-	c.Extra("exhaustive", false)
-	c.Extra("exhaustive_subspace", fmt.Sprintf("all non-empty path words of length<=%d over the %d-symbol core alphabet (%d words) and all (path,arg) symbol pairs", L, len(core), nEx))
-	// random token compositions
-	r := c.Rand("tokens")
-	word := func() string {
-		switch r.Intn(12) {
-		case 0:
-			return ""
-		case 1:
-			return "-" + tokens[r.Intn(len(tokens))]
-		}
-		n := 1 + r.Intn(10)
-		var b strings.Builder
-		for i := 0; i < n; i++ {
-			b.WriteString(tokens[r.Intn(len(tokens))])
-		}
-		return b.String()
-	}
-	nTok := c.N(2200, 60000)
-	for i := 0; i < nTok; i++ {
-		na := 0
-		if r.Intn(2) == 0 {
-			na = 1 + r.Intn(3)
-		}
-		args := make([]string, na)
-		for j := range args {
-			args[j] = word()
-		}
-		add("tokens", word(), args...)
-	}
-	// random bytes 1..255
-	rb := c.Rand("bytes")
-	nB := c.N(900, 25000)
-	for i := 0; i < nB; i++ {
-		mk := func() string {
-			n := rb.Intn(48)
-			b := make([]byte, n)
-			for k := range b {
-				b[k] = byte(1 + rb.Intn(255))
-			}
-			return string(b)
-		}
-		if rb.Intn(3) == 0 {
-			add("bytes", mk(), mk())
-		} else {
-			add("bytes", mk())
-		}
-	}
-	// every single byte value, alone and embedded
-	for b := 1; b < 256; b++ {
-		add("single-byte", string([]byte{byte(b)}))
-		add("single-byte", "a"+string([]byte{byte(b)})+"b", string([]byte{byte(b), byte(b)}))
-	}
-	// long words
-	rl := c.Rand("long")
-	nL := c.N(12, 120)
-	for i := 0; i < nL; i++ {
-		n := []int{300, 1000, 4095, 4096, 4097, 8192, 20000, 30000}[rl.Intn(8)]
-		var b strings.Builder
-		switch rl.Intn(4) {
-		case 0:
-			b.WriteString(strings.Repeat("'", n))
-		case 1:
-			b.WriteString(strings.Repeat("a", n))
-		case 2:
-			b.WriteString(strings.Repeat("!'", n/2))
-		default:
-			for b.Len() < n {
-				b.WriteString(tokens[rl.Intn(len(tokens))])
-			}
-		}
-		if rl.Intn(2) == 0 {
-			add("long", b.String())
-		} else {
-			add("long", "/repo", b.String(), "")
-		}
-	}
-	return cases
-}
-
-func run(c *vf.Ctx) {
-	for _, sh := range []string{"/usr/bin/dash", "/usr/bin/bash", "/usr/bin/git-shell"} {
-		if _, err := os.Stat(sh); err != nil {
-			c.Broken("required shell %s missing: %v", sh, err)
-			return
-		}
-	}
-	// The stub is a 3-line dash script (a Go stub costs ~10 ms of CPU per start, dash ~0.5 ms);
-	// its byte-exactness is validated below before it is trusted.
-	stubDir := c.TempDir("stubs")
-	script := "#!/usr/bin/dash\nprintf '%s\\0' \"$#\" \"$0\" \"$@\" >> \"$" + stubEnv + "\"\nexit " + strconv.Itoa(stubExit) + "\n"
-	for _, s := range append([]string{"git"}, services...) {
-		c.Must(os.WriteFile(filepath.Join(stubDir, s), []byte(script), 0o755), "write stub")
-	}
-	{
-		var all []string
-		for b := 1; b < 256; b++ {
-			all = append(all, string([]byte{byte(b)}), "x"+string([]byte{byte(b), byte(b)})+"y")
-		}
-		all = append(all, "", "-n", "-e", "\\0", "%s", "\\c", strings.Repeat("'\\", 30000))
-		out := filepath.Join(stubDir, "validate.out")
-		cmd := exec.Command(filepath.Join(stubDir, "git-upload-pack"), all...)
-		cmd.Env = []string{stubEnv + "=" + out, "PATH=" + stubDir}
-		cmd.Run()
-		b, _ := os.ReadFile(out)
-		os.Remove(out)
-		inv, err := parseOut(b)
-		if err != nil || len(inv) != 1 || !eqWords(inv[0].Argv[1:], all) {
-			c.Broken("argv-dumping stub is not byte-exact (err=%v, %d invocations)", err, len(inv))
-			return
-		}
-		c.Count("stub_validation_words", len(all))
-	}
-	shells := []shellSpec{
-		{Name: "dash", Argv: []string{"/usr/bin/dash"}, Env: []string{"LC_ALL=C"}},
-		{Name: "bash", Argv: []string{"/usr/bin/bash", "--norc", "--noprofile"}, Env: []string{"LC_ALL=C"}},
-		{Name: "bash-posix-utf8", Argv: []string{"/usr/bin/bash", "--norc", "--noprofile", "--posix"}, Env: []string{"LC_ALL=C.utf8"}},
-	}
-	gitShell := shellSpec{Name: "git-shell", Argv: []string{"/usr/bin/git-shell"}, Env: []string{"LC_ALL=C"}}
-
-	cases := genCases(c)
-	nw := 8
-	workers := make([]*worker, nw)
-	for i := range workers {
-		workers[i] = newWorker(c, stubDir, i)
-	}
-	// calibration of the monitor itself: an injected command line must be seen as such
-	{
-		w := workers[0]
-		r := w.runShell(shells[0], "git-upload-pack 'x'; echo pwned > pwned")
-		if len(r.Inv) != 1 || !r.Changed || r.Code == stubExit {
-			c.Broken("calibration: dash did not show the injected redirection (inv=%d changed=%v code=%d)", len(r.Inv), r.Changed, r.Code)
-			return
-		}
-		w.restore(c)
-		r = w.runShell(shells[1], "git-upload-pack *")
-		if len(r.Inv) != 1 || len(r.Inv[0].Argv) < 4 {
-			c.Broken("calibration: bash did not expand an unquoted glob against the sentinel files: %v", r.Inv)
-			return
-		}
-		r = w.runShell(shells[0], "git-upload-pack 'it'\\''s' ''")
-		if len(r.Inv) != 1 || !eqWords(r.Inv[0].Argv[1:], []string{"it's", ""}) || r.Code != stubExit || r.Changed {
-			c.Broken("calibration: correct quoting not recognised: %+v", r)
-			return
-		}
-		c.Count("calibrations", 3)
-	}
-
-	pool := make(chan *worker, nw)
-	for _, w := range workers {
-		pool <- w
-	}
-	var failMu sync.Mutex
-	vf.Parallel(len(cases), nw, func(i int) {
-		t := cases[i]
-		w := <-pool
-		defer func() { pool <- w }()
-		shape, non := caseShape(t)
-		c.Eval(shape, non)
-		c.Seen("origins", t.Origin)
-		for _, wd := range t.words() {
-			c.Seen("word_shapes", wordShape(wd))
-		}
-		cmdline, p := buildCmd(t)
-		if p != nil {
-			c.Fail("panic", fmt.Sprintf("buildCommand panicked: %v", p), t.replay())
-			return
-		}
-		if i < 2 || i == 700 {
-			c.Sample(map[string]any{"case": t.replay(), "command_line": trunc(cmdline)})
-		}
-		// structural precondition of all oracles
-		prefix := t.Service + " "
-		if !strings.HasPrefix(cmdline, prefix) {
-			c.Fail("wrong-command:prefix", fmt.Sprintf("command line %q does not start with the service name", trunc(cmdline)), t.replay())
-			return
-		}
-		// oracle 2: sq_dequote_to_argv
-		dq, ok := sqDequoteToArgv(cmdline[len(prefix):])
-		c.Count("sq_dequote_checks", 1)
-		modelBad := !ok || !eqWords(dq, t.words())
-		// oracle 3: real git-shell (only defined for exactly one word, not starting with '-')
-		gitShellRan := false
-		if len(t.Args) == 0 && len(cmdline) < 120000 {
-			r := w.runShell(gitShell, cmdline)
-			if r.TimedOut {
-				c.Inconclusive("git-shell timed out")
-			} else {
-				gitShellRan = true
-				c.Count("git_shell_runs", 1)
-				wantReject := strings.HasPrefix(t.Path, "-")
-				var bad string
-				if wantReject {
-					if len(r.Inv) != 0 {
-						bad = "git-shell ran a command although the path starts with '-'"
-					}
-				} else {
-					want := []string{strings.TrimPrefix(t.Service, "git-"), t.Path}
-					if len(r.Inv) != 1 || len(r.Inv[0].Argv) < 1 || !eqWords(r.Inv[0].Argv[1:], want) {
-						bad = fmt.Sprintf("git-shell -c did not run `git %s <path>`: invocations=%v exit=%d stderr=%q", want[0], r.Inv, r.Code, trunc(r.Stderr))
-					}
-				}
-				if r.Changed {
-					w.restore(c)
-				}
-				if (bad != "") != modelBad && !wantReject {
-					c.Broken("MODEL-MISMATCH: sq_dequote transcription says ok=%v, git-shell says %q for %q", !modelBad, bad, trunc(cmdline))
-				}
-				if bad != "" {
-					failMu.Lock()
-					ft := feature(t, func(x tcase) bool {
-						cl, p := buildCmd(x)
-						if p != nil {
-							return false
-						}
-						rr := w.runShell(gitShell, cl)
-						return len(rr.Inv) != 1 || len(rr.Inv[0].Argv) != 3 || rr.Inv[0].Argv[2] != x.Path
-					})
-					failMu.Unlock()
-					c.Fail("git-shell:"+ft, bad+" :: command line "+strconv.Quote(trunc(cmdline)), t.replay())
-				}
-			}
-		}
-		if modelBad && !gitShellRan {
-			ft := feature(t, func(x tcase) bool {
-				cl, p := buildCmd(x)
-				if p != nil || !strings.HasPrefix(cl, x.Service+" ") {
-					return p == nil
-				}
-				d, ok := sqDequoteToArgv(cl[len(x.Service)+1:])
-				return !ok || !eqWords(d, x.words())
-			})
-			c.Fail("sq-dequote:"+ft, fmt.Sprintf("git's sq_dequote_to_argv on %q gives ok=%v %s, want %s", trunc(cmdline), ok, quoteAll(dq), quoteAll(t.words())), t.replay())
-		}
-		// oracle 1: real shells
-		if len(cmdline) >= 120000 {
-			c.Count("too_long_for_exec", 1)
-			return
-		}
-		for si, sp := range shells {
-			if si > 0 && si != 1+i%2 {
-				continue // dash always; the two bash flavours alternate by case index
-			}
-			r := w.runShell(sp, cmdline)
-			if r.TimedOut {
-				c.Inconclusive("%s timed out on a case", sp.Name)
-				continue
-			}
-			if r.RunErr != "" {
-				c.Broken("%s could not be run / stub output broken: %s", sp.Name, r.RunErr)
-				continue
-			}
-			c.Count("shell_evaluations", 1)
-			c.Seen("shells", sp.Name)
-			clause, what := judge(sp, t, r)
-			if r.Changed {
-				w.restore(c)
-			}
-			if clause == "" {
-				continue
-			}
-			failMu.Lock()
-			ft := feature(t, func(x tcase) bool {
-				cl, p := buildCmd(x)
-				if p != nil {
-					return false
-				}
-				rr := w.runShell(sp, cl)
-				cl2, _ := judge(sp, x, rr)
-				if rr.Changed {
-					w.restore(c)
-				}
-				return cl2 != ""
-			})
-			failMu.Unlock()
-			c.Fail(clause+":"+ft, what+" :: command line "+strconv.Quote(trunc(cmdline)), t.replay())
-			break // one report per case is enough
-		}
-	})
-	c.Extra("cases_generated", len(cases))
-	c.Floor("cases", len(cases), c.N(5000, 100000))
-	c.Floor("shell evaluations", c.Counter("shell_evaluations"), c.N(10000, 200000))
-	c.Floor("git-shell runs", c.Counter("git_shell_runs"), c.N(1500, 30000))
-	c.Floor("sq_dequote checks", c.Counter("sq_dequote_checks"), c.N(5000, 100000))
-	c.Floor("distinct word shapes", c.SeenCount("word_shapes"), 100)
-	c.Floor("shell flavours", c.SeenCount("shells"), 3)
-	c.Assume("req.Command is one of git's three service names (it is written unquoted by design); words containing NUL are outside the domain (cannot occur in argv)")
-	c.Assume("dash 0.5 and bash 5 (normal and --posix, C and C.utf8 locales) stand for 'a POSIX shell'; git-shell 2.39.5 is git's own consumer of the command line")
-	c.Assume("a command injected through the command line is visible as: a second/missing stub invocation, different argv, a changed sentinel cwd/HOME, a different shell exit status, or shell output; PATH holds only the stub directory")
 }
